@@ -95,7 +95,7 @@ func exploreScenario(r *mc.Report, sc *Scenario, b mc.Bounds, oracle oracleFn) {
 			return
 		}
 		var e *Env
-		s := mc.RunOne(c.Choices, c.Bounds, func() { e = c.Scenario.Run() })
+		s := mc.RunOne(c.Choices, c.Bounds, func() { c.Scenario.RunInto(&e) })
 		r.Executions++
 		fs := append(genericFindings(e, s), oracle(e, s)...)
 		fmt.Println("outcome:", e.Summary())
@@ -112,7 +112,7 @@ func exploreScenario(r *mc.Report, sc *Scenario, b mc.Bounds, oracle oracleFn) {
 	}
 	var e *Env
 	reproduced := map[string]bool{}
-	st := mc.Explore(b, func() { e = sc.Run() }, func(s *vsched.Sched, cost [2]int) bool {
+	st := mc.Explore(b, func() { sc.RunInto(&e) }, func(s *vsched.Sched, cost [2]int) bool {
 		r.Outcome(sc.Name + " | " + e.Summary())
 		fs := append(genericFindings(e, s), oracle(e, s)...)
 		for _, f := range fs {
@@ -124,7 +124,7 @@ func exploreScenario(r *mc.Report, sc *Scenario, b mc.Bounds, oracle oracleFn) {
 				// the same schedule must fail every time: re-run it twice
 				for k := 0; k < 2; k++ {
 					var e2 *Env
-					s2 := mc.RunOne(c.Choices, b, func() { e2 = sc.Run() })
+					s2 := mc.RunOne(c.Choices, b, func() { sc.RunInto(&e2) })
 					ok := false
 					for _, f2 := range append(genericFindings(e2, s2), oracle(e2, s2)...) {
 						f2.F["scenario"] = scenFamily(sc.Name)
